@@ -28,6 +28,24 @@ type ConfigReceiver struct {
 	ChainKey []byte
 }
 
+// Validate checks that the config contains everything a protocol run relies on, so that an incomplete
+// config is refused when a session is started, rather than crashing the session later on.
+func (c *ConfigReceiver) Validate() error {
+	if c == nil {
+		return errors.New("config is nil")
+	}
+	if c.Setup == nil {
+		return errors.New("config: OT setup is missing")
+	}
+	if c.SecretShare == nil || c.SecretShare.IsZero() {
+		return errors.New("config: secret share is missing or zero")
+	}
+	if c.Public == nil || c.Public.IsIdentity() {
+		return errors.New("config: public key is missing")
+	}
+	return nil
+}
+
 // Group returns the elliptic curve group associate with this config.
 func (c *ConfigReceiver) Group() curve.Curve {
 	return c.Public.Curve()
@@ -86,6 +104,23 @@ type ConfigSender struct {
 	Public curve.Point
 	// ChainKey is the shared chain key.
 	ChainKey []byte
+}
+
+// Validate checks that the config contains everything a protocol run relies on.
+func (c *ConfigSender) Validate() error {
+	if c == nil {
+		return errors.New("config is nil")
+	}
+	if c.Setup == nil {
+		return errors.New("config: OT setup is missing")
+	}
+	if c.SecretShare == nil || c.SecretShare.IsZero() {
+		return errors.New("config: secret share is missing or zero")
+	}
+	if c.Public == nil || c.Public.IsIdentity() {
+		return errors.New("config: public key is missing")
+	}
+	return nil
 }
 
 // Group returns the elliptic curve group associate with this config.
